@@ -44,7 +44,7 @@ TEXT = {
  "C13": ("Bounded model checking of the real evaluator (bit-precise floats) for negation symmetry and mirror symmetry; quick: slices (bare kings with one king symbolic; kings concrete and one man of each kind on a symbolic square), thorough: 3- to 5-man families with all squares symbolic; both perspectives, all ply <= 10^6; lemma that weighting commutes with negation.",
          "DESIGN.md §4.8", "Assumes C09 (gated). Families where the mover has more than a king are restricted to positions where it is not in check and its king has a free safe square (a legal move then exists). compute_legal_moves inside the evaluator stubbed as for C05.",
          "SAT-based bounded model checking (Kani/CBMC) of Evaluator::evaluate twice per query (relational check) with IEEE-754 floats"),
- "C14": ("Bounded model checking for absence of panics (overflow, bounds, unwrap, slicing, char boundaries: the dev profile's checks) and termination (unwinding assertions): SAN parser on every valid UTF-8 string <= 6 bytes (thorough 8), Square::try_from <= 4 bytes, the FEN field parsers behind the regex gate on every input the gate admits up to 24 bytes, digit floods of 54 bytes (thorough: full alphabet to 48 bytes).",
+ "C14": ("Bounded model checking for absence of panics (overflow, bounds, unwrap, slicing, char boundaries: the dev profile's checks) and termination (unwinding assertions): SAN parser on every valid UTF-8 string <= 6 bytes (thorough 8), Square::try_from <= 4 bytes, the FEN field parsers behind the regex gate on every input the gate admits up to 24 bytes and on concrete runs of 31 (7) eights followed by every 15-16 (18) byte tail (thorough: full alphabet to 48 bytes, 54-byte digit floods).",
          "DESIGN.md §4.9", "Parsers only: the UCI command loop and the regex gate itself are outside. FEN field inputs restricted to what the regex admits.",
          "SAT-based bounded model checking (Kani/CBMC) of the text parsers over all byte strings up to a length bound"),
  "C15": ("Bounded model checking of the real private table types through a forwarding hook: every history of <= 6 (thorough 9 and 10: forces the replacement path) inserts plus a lookup on one bucket, short histories on routed tables, and one insert/lookup step from an arbitrary bucket under the representation invariant (any history length on one bucket by induction).",
